@@ -8,7 +8,9 @@ Footprints, per operation kind (cells: 0 document, 1 routers, 2 `sliceUniqueItem
 
   FindRoute (gorillamux / legacy)   read doc, read router
   ValidateRequest / ValidateResponse / VisitJSON
-                                    read doc (+ router); per `pattern` keyword reached: cacheFill (sync.Map);
+                                    read doc (+ router); per `pattern` keyword reached: cacheUse of the process-wide
+                                    pattern cache, keyed by pattern text (the cached matcher is used if there is one,
+                                    else the call's own regex compiler — a per-call option — compiles; nothing fills it);
                                     when an array-typed schema is reached: lazyInit of the uniqueness checker
                                     (declared WITH an initialiser → never nil); default injection writes into
                                     the decoded request value, which is per call; an object-valued default is
@@ -34,6 +36,7 @@ structure OpM where
   sharedDefault : Bool := false  -- the schema has an object-valued default that itself receives nested defaults
   genType : Nat := 0
   recursive : Bool := false      -- the Go type handed to the generator refers to itself
+  dialect : Nat := 0             -- per-call regex compiler (Options.RegexCompiler / SetSchemaRegexCompiler): 0 = default
   deriving DecidableEq, Repr
 
 def docCell : Cell := 0
@@ -56,7 +59,9 @@ def validates : OpKind → Bool
 def opActs (_tid : Nat) (o : OpM) : List Act :=
   [Act.read docCell] ++
   (if usesRouter o.kind then [Act.read routerCell] else []) ++
-  (if validates o.kind then o.patterns.map (fun p => Act.cacheFill (patCell p) (p + 1)) else []) ++
+  -- visitJSONString USES the matcher the process-wide cache holds for the pattern TEXT, else compiles with the
+  -- call's own regex compiler; `compilePattern` never fills the cache (CompareAndSwap(pattern, nil, cp))
+  (if validates o.kind then o.patterns.map (fun p => Act.cacheUse (patCell p) (1 + o.dialect)) else []) ++
   (if validates o.kind && o.arrays then [Act.lazyInit uniqCell 7] else []) ++
   -- getTypeInfo: the first published descriptor wins — a fill, for recursive types too
   (if o.kind = .gen then [Act.cacheFill (typeCell o.genType) (o.genType + 1)] else []) ++
@@ -71,7 +76,7 @@ structure CaseM where
   deriving Repr
 
 def caseCfg (c : CaseM) : Cfg :=
-  { cache := (c.ops.flatMap (fun o => o.patterns.map patCell)) ++ c.ops.map (fun o => typeCell o.genType),
+  { cache := c.ops.map (fun o => typeCell o.genType),   -- the pattern cells are NOT caches: nothing fills them
     lazy := [uniqCell] }
 
 /-- initial state: document and routers built, the uniqueness checker initialised by its declaration,
